@@ -208,6 +208,8 @@ pub enum ExprKind {
     Binary(BinOp, Box<Expr>, Box<Expr>),
     Selector(Box<Expr>, String),
     Index(Box<Expr>, Box<Expr>),
+    /// `a[lo:hi]` / `a[lo:hi:max]` (each bound optional, `max` only in the three-index form)
+    SliceExpr(Box<Expr>, Option<Box<Expr>>, Option<Box<Expr>>, Option<Box<Expr>>),
     Assert(Box<Expr>, TyExpr),
     TypeSwitchGuard(Box<Expr>), // e.(type), only legal in switch headers
     Composite(TyExpr, Vec<(Option<String>, Expr)>), // T{f: v} / [N]T{..} / []T{..}
@@ -1428,12 +1430,31 @@ impl P {
                 self.next();
                 let save = self.expr_lev;
                 self.expr_lev = 0;
-                let idx = self.expr();
-                self.expr_lev = save;
-                let idx = idx?;
+                // slice expressions: a[lo:hi], a[lo:hi:max]
+                let lo = if self.is_op(":") { None } else { Some(self.expr()) };
                 if self.is_op(":") {
-                    return self.unsup("slice expression");
+                    let lo = match lo {
+                        Some(r) => Some(Box::new(r?)),
+                        None => None,
+                    };
+                    self.next();
+                    let hi = if self.is_op(":") || self.is_op("]") { None } else { Some(Box::new(self.expr()?)) };
+                    let mut max = None;
+                    if self.is_op(":") {
+                        self.next();
+                        max = Some(Box::new(self.expr()?));
+                        if hi.is_none() {
+                            self.expr_lev = save;
+                            return self.err("middle index required in 3-index slice");
+                        }
+                    }
+                    self.expr_lev = save;
+                    self.expect_op("]")?;
+                    e = Expr { kind: ExprKind::SliceExpr(Box::new(e), lo, hi, max), line, ty: None };
+                    continue;
                 }
+                self.expr_lev = save;
+                let idx = lo.unwrap()?;
                 self.expect_op("]")?;
                 e = Expr {
                     kind: ExprKind::Index(Box::new(e), Box::new(idx)),
